@@ -134,6 +134,16 @@ func (e *Enc) verifyFunction(fn *ssa.Function, con *Contract) {
 			e.assume(g)
 		}
 	}
+	for _, c := range con.Exits {
+		n := len(e.obls)
+		g := e.evalBool(env, c)
+		e.oblige("exit", name+"/exit."+c.Label, g, pos)
+		if len(e.obls) > n {
+			e.obls[n].Env = env
+			e.obls[n].ClauseText = c.Text
+			e.obls[n].ClauseExpr = c.Expr
+		}
+	}
 	if !con.ModAll {
 		e.frameObligations(name, con, env, entry, pos)
 	}
@@ -280,7 +290,7 @@ func (e *Enc) frameObligations(name string, con *Contract, env *Env, entry *Stat
 			}
 			e.oblige("frame", name0+"/frame.global."+name, eq(fin, ini), pos)
 		case strings.HasPrefix(k, "G|"):
-			if _, ok := allowedRef[k]; ok || strings.HasPrefix(k, "G|loc_") {
+			if _, ok := allowedRef[k]; ok || strings.HasPrefix(k, "G|loc_") || (strings.HasPrefix(k, "G|") && e.L.Contracts.ScratchGhost[k[2:]]) {
 				continue
 			}
 			e.oblige("frame", name+"/frame.ghost."+strings.TrimPrefix(k, "G|"), eq(fin, ini), pos)
